@@ -68,6 +68,7 @@ type Unit struct {
 	Tiers    map[string]*TierCfg `json:"tiers"`
 	Bounds   map[string]string   `json:"bounds"` // free-text description of each bound, per tier or common
 	NoReplay bool                `json:"no_replay"`
+	Clock    string              `json:"clock"` // "concrete": the clock starts at a fixed instant (units whose property does not depend on time)
 	InitPkgs []string            `json:"init_pkgs"` // extra packages whose init must be interpreted
 }
 
